@@ -1,0 +1,150 @@
+//go:build verif
+
+package closest
+
+//@ # C19: a failed Write is never reported as success: result == nil implies no Write failed, for EVERY failure point
+//@ # (the loop invariant !failed(w) covers every write index at once). Content (C06): one row per result.
+//@ func writeClosest
+//@   modifies w
+//@   loop 1:
+//@     invariant !failed(w)
+//@     invariant implies(measure == "raw" || measure == "snp" || measure == "tn93", len(written(w)) == 1 + range_i && written(w)[0] == "query,closest,distance,SNPs\n")
+//@   ensures [c19] implies(result == nil, !failed(w))
+//@   ensures [rows] implies(result == nil && (measure == "raw" || measure == "snp" || measure == "tn93"), len(written(w)) == 1 + len(results) && written(w)[0] == "query,closest,distance,SNPs\n")
+
+//@ func writeClosestN
+//@   modifies w
+//@   loop 1:
+//@     invariant !failed(w) && len(written(w)) == 1 + range_i && written(w)[0] == "query,closest\n"
+//@   ensures [c19] implies(result == nil, !failed(w))
+//@   ensures [rows] implies(result == nil, len(written(w)) == 1 + len(results) && written(w)[0] == "query,closest\n")
+
+//@ func writeClosestNTable
+//@   modifies w
+//@   loop 1:
+//@     invariant !failed(w)
+//@   loop 2:
+//@     invariant !failed(w)
+//@   loop 3:
+//@     invariant !failed(w)
+//@   loop 4:
+//@     invariant !failed(w)
+//@   ensures [c19] implies(result == nil, !failed(w))
+
+//@ # C07: the per-column classification on encoded symbols. disjoint(a,b) = (a&b) < 16; same resolved base = a&8==8 && a==b.
+//@ # (Lemmas EA_disjoint / EA_resolved / EA_same / EA_purine / EA_pyrimidine in the encoding package tie these bit tests to
+//@ # the IUPAC meaning of the symbols.) The counters equal the specification's counts over ALL columns.
+//@ func snpDistance
+//@   requires len(query.Seq) == len(target.Seq)
+//@   loop 1:
+//@     invariant n == count(k, 0, i, (query.Seq[k] & target.Seq[k]) < 16)
+//@   ensures !isnan(result)
+//@   ensures [local.def] result == float64(count(k, 0, len(target.Seq), (query.Seq[k] & target.Seq[k]) < 16))
+//@   ensures [local.identical] countzero(k, 0, len(target.Seq), (query.Seq[k] & target.Seq[k]) < 16) && implies(forall(k, 0, len(target.Seq), query.Seq[k] == target.Seq[k] && isCode(target.Seq[k]) && (target.Seq[k] & 8) == 8), result == 0.0)
+
+//@ func rawDistance
+//@   requires len(query.Seq) == len(target.Seq)
+//@   loop 1:
+//@     invariant n == count(k, 0, i, (query.Seq[k] & target.Seq[k]) < 16)
+//@     invariant d == n + count(k, 0, i, (query.Seq[k] & 8) == 8 && query.Seq[k] == target.Seq[k])
+//@   ensures [local.def] isnan(result) || result == float64(count(k, 0, len(target.Seq), (query.Seq[k] & target.Seq[k]) < 16)) / float64(count(k, 0, len(target.Seq), (query.Seq[k] & target.Seq[k]) < 16) + count(k, 0, len(target.Seq), (query.Seq[k] & 8) == 8 && query.Seq[k] == target.Seq[k]))
+//@   ensures [local.range] implies(!isnan(result), result >= 0.0 && result <= 1.0)
+//@   ensures [local.identical] countzero(k, 0, len(target.Seq), (query.Seq[k] & target.Seq[k]) < 16) && countall(k, 0, len(target.Seq), (query.Seq[k] & 8) == 8 && query.Seq[k] == target.Seq[k]) && implies(len(target.Seq) > 0 && forall(k, 0, len(target.Seq), query.Seq[k] == target.Seq[k] && isCode(target.Seq[k]) && (target.Seq[k] & 8) == 8), result == 0.0)
+//@   ensures [local.nan] isnan(result) == (count(k, 0, len(target.Seq), (query.Seq[k] & target.Seq[k]) < 16) + count(k, 0, len(target.Seq), (query.Seq[k] & 8) == 8 && query.Seq[k] == target.Seq[k]) == 0)
+
+//@ # tn93: Tamura & Nei (1993) eq. 7, written from the paper: gR = gA+gG, gY = gC+gT,
+//@ # d = -(2 gA gG/gR) ln(1 - gR/(2 gA gG) P1 - Q/(2 gR)) - (2 gT gC/gY) ln(1 - gY/(2 gT gC) P2 - Q/(2 gY))
+//@ #     - 2 (gR gY - gA gG gY/gR - gT gC gR/gY) ln(1 - Q/(2 gR gY))
+//@ spec tn93arg1(P1 float64, Q float64, gA float64, gG float64, gR float64) float64 = 1.0 - gR/(2.0*gA*gG)*P1 - Q/(2.0*gR)
+//@ spec tn93arg2(P2 float64, Q float64, gC float64, gT float64, gY float64) float64 = 1.0 - gY/(2.0*gT*gC)*P2 - Q/(2.0*gY)
+//@ spec tn93arg3(Q float64, gR float64, gY float64) float64 = 1.0 - Q/(2.0*gR*gY)
+//@ spec tn93c1(gA float64, gG float64, gR float64) float64 = 2.0*gA*gG/gR
+//@ spec tn93c2(gC float64, gT float64, gY float64) float64 = 2.0*gT*gC/gY
+//@ spec tn93c3(gA float64, gC float64, gG float64, gT float64, gR float64, gY float64) float64 = 2.0*(gR*gY - gA*gG*gY/gR - gT*gC*gR/gY)
+//@ # pure real-arithmetic facts used by tn93Distance, proved once on their own (small nonlinear queries)
+//@ lemma tn93_quot [C07] (P float64, k float64, a float64, b float64, r float64): implies(!isnan(P) && !isnan(a) && !isnan(b) && !isnan(r) && a > 0.0 && b > 0.0 && r > 0.0 && k == 2.0*a*b/r, P/k == r/(2.0*a*b)*P)
+//@ func tn93Distance
+//@   requires len(query.Seq) == len(target.Seq)
+//@   requires forall(k, 0, len(query.Seq), isCode(query.Seq[k]))
+//@   requires query.Count_A == 0 && query.Count_C == 0 && query.Count_G == 0 && query.Count_T == 0
+//@   loop 1:
+//@     invariant count_d == count(k, 0, i, (query.Seq[k] & target.Seq[k]) < 16 && (query.Seq[k] & 8) == 8 && (target.Seq[k] & 8) == 8)
+//@     invariant count_L == count_d + count(k, 0, i, (query.Seq[k] & 8) == 8 && query.Seq[k] == target.Seq[k])
+//@     invariant count_P1 == count(k, 0, i, (query.Seq[k] & target.Seq[k]) < 16 && (query.Seq[k] & 8) == 8 && (target.Seq[k] & 8) == 8 && (query.Seq[k] | target.Seq[k]) == 200)
+//@     invariant count_P2 == count(k, 0, i, (query.Seq[k] & target.Seq[k]) < 16 && (query.Seq[k] & 8) == 8 && (target.Seq[k] & 8) == 8 && (query.Seq[k] | target.Seq[k]) == 56)
+//@     invariant 0 <= count_P1 && 0 <= count_P2 && count_P1 + count_P2 <= count_d && count_d <= count_L
+//@   before return#1: assert [counts] count_L > 0 || isnan(P1)
+//@   before return#1: assert [freq] !(target.Count_A > 0 && target.Count_C > 0 && target.Count_G > 0 && target.Count_T > 0) || !isnan(g_A) && g_A > 0.0 && g_C > 0.0 && g_G > 0.0 && g_T > 0.0 && g_R == g_A + g_G && g_Y == g_C + g_T
+//@   before return#1: assert [freq.def] implies(target.Count_A > 0 && target.Count_C > 0 && target.Count_G > 0 && target.Count_T > 0, g_A == float64(target.Count_A) / float64(target.Count_A + target.Count_C + target.Count_G + target.Count_T) && g_C == float64(target.Count_C) / float64(target.Count_A + target.Count_C + target.Count_G + target.Count_T) && g_G == float64(target.Count_G) / float64(target.Count_A + target.Count_C + target.Count_G + target.Count_T) && g_T == float64(target.Count_T) / float64(target.Count_A + target.Count_C + target.Count_G + target.Count_T))
+//@   before return#1: assert [rates] implies(count_L > 0 && target.Count_A > 0 && target.Count_C > 0 && target.Count_G > 0 && target.Count_T > 0, P1 == float64(count_P1) / float64(count_L) && P2 == float64(count_P2) / float64(count_L) && Q == float64(count_d - count_P1 - count_P2) / float64(count_L))
+//@   before return#1: assert [arg1.quot] uselemma(tn93_quot, P1, k1, g_A, g_G, g_R)
+//@   before return#1: assert [arg2.quot] uselemma(tn93_quot, P2, k2, g_T, g_C, g_Y)
+//@   before return#1: assert [arg1] implies(count_L > 0 && target.Count_A > 0 && target.Count_C > 0 && target.Count_G > 0 && target.Count_T > 0, w1 == tn93arg1(P1, Q, g_A, g_G, g_R))
+//@   before return#1: assert [arg2] implies(count_L > 0 && target.Count_A > 0 && target.Count_C > 0 && target.Count_G > 0 && target.Count_T > 0, w2 == tn93arg2(P2, Q, g_C, g_T, g_Y))
+//@   before return#1: assert [arg3] implies(count_L > 0 && target.Count_A > 0 && target.Count_C > 0 && target.Count_G > 0 && target.Count_T > 0, w3 == tn93arg3(Q, g_R, g_Y))
+//@   before return#1: assert [coef] implies(target.Count_A > 0 && target.Count_C > 0 && target.Count_G > 0 && target.Count_T > 0, k1 == tn93c1(g_A, g_G, g_R) && k2 == tn93c2(g_C, g_T, g_Y) && k3 == tn93c3(g_A, g_C, g_G, g_T, g_R, g_Y))
+//@   ensures [local.eq7] implies(target.Count_A > 0 && target.Count_C > 0 && target.Count_G > 0 && target.Count_T > 0 && count(k, 0, len(target.Seq), (query.Seq[k] & target.Seq[k]) < 16 && (query.Seq[k] & 8) == 8 && (target.Seq[k] & 8) == 8) + count(k, 0, len(target.Seq), (query.Seq[k] & 8) == 8 && query.Seq[k] == target.Seq[k]) > 0, isnan(result) || result == -k1*log(w1) - k2*log(w2) - k3*log(w3))
+
+//@ # C06: running best under the documented order. Ghost maps remember each target's distance and completeness by arrival
+//@ # index; gBest is the arrival index of the current best. beats(t,b): t comes before b in the documented total order
+//@ # (defined distance before undefined; then smaller distance; then larger completeness; then earlier in the file).
+//@ spec beats(dt float64, st int64, t int, db float64, sb int64, b int) bool = (!isnan(dt) && isnan(db)) || (!isnan(dt) && !isnan(db) && dt < db) || (((!isnan(dt) && !isnan(db) && dt == db) || (isnan(dt) && isnan(db))) && (st > sb || (st == sb && t < b)))
+//@ func findClosest
+//@   modifies cOut
+//@   requires forall(t, 0, len(recv(cIn)), len(recv(cIn)[t].Seq) == len(query.Seq))
+//@   requires forall(k, 0, len(query.Seq), isCode(query.Seq[k]))
+//@   requires query.Count_A == 0 && query.Count_C == 0 && query.Count_G == 0 && query.Count_T == 0
+//@   ghost gD map[int]float64 = make(map[int]float64)
+//@   ghost gS map[int]int64 = make(map[int]int64)
+//@   ghost gBest int = 0
+//@   ghost gT fastaio.EncodedFastaRecord = fastaio.EncodedFastaRecord{}
+//@   loop 1:
+//@     invariant first == (range_i == 0) && len(sent(cOut)) == 0
+//@     invariant implies(!first, gT == recv(cIn)[gBest])
+//@     invariant implies(!first, 0 <= gBest && gBest < range_i && closest.tname == recv(cIn)[gBest].ID && closest.completeness == gS[gBest] && (closest.distance == gD[gBest] || (isnan(closest.distance) && isnan(gD[gBest]))))
+//@     invariant forall(t, 0, range_i, gS[t] == recv(cIn)[t].Score)
+//@     invariant implies(!first, forall(t, 0, range_i, !beats(gD[t], gS[t], t, gD[gBest], gS[gBest], gBest)))
+//@     invariant implies(!first, len(closest.snps) == count(k, 0, len(query.Seq), (query.Seq[k] & gT.Seq[k]) < 16))
+//@   loop 2:
+//@     invariant len(sent(cOut)) == 0 && freshslice(snps) && len(snps) == count(k, 0, i, (query.Seq[k] & target.Seq[k]) < 16)
+//@   loop 3:
+//@     invariant len(sent(cOut)) == 0 && freshslice(snps) && len(snps) == count(k, 0, i, (query.Seq[k] & target.Seq[k]) < 16)
+//@   loop 4:
+//@     invariant len(sent(cOut)) == 0 && freshslice(snps) && len(snps) == count(k, 0, i, (query.Seq[k] & target.Seq[k]) < 16)
+//@   after assign:closest#1: assert [snps.first] len(closest.snps) == count(k, 0, len(query.Seq), (query.Seq[k] & target.Seq[k]) < 16)
+//@   after assign:closest#2: assert [snps.closer] len(closest.snps) == count(k, 0, len(query.Seq), (query.Seq[k] & target.Seq[k]) < 16)
+//@   after assign:closest#3: assert [snps.tie] len(closest.snps) == count(k, 0, len(query.Seq), (query.Seq[k] & target.Seq[k]) < 16)
+//@   after switch#1: do gD[range_i] = distance; gS[range_i] = target.Score
+//@   before if#1: do if first { gBest = range_i; gT = target }
+//@   before if#3: do if distance < closest.distance || (isnan(closest.distance) && !isnan(distance)) || ((distance == closest.distance || (isnan(distance) && isnan(closest.distance))) && target.Score > closest.completeness) { gBest = range_i; gT = target }
+//@   ensures len(sent(cOut)) == 1 && sent(cOut)[0].qname == query.ID && sent(cOut)[0].qidx == query.Idx
+
+//@ # closest -n: the catchment comparator (distance ascending with NaN last, then completeness descending)
+//@ spec cmpLess(di float64, ci int64, dj float64, cj int64) bool = (!isnan(di) && isnan(dj)) || di < dj || ((di == dj || (isnan(di) && isnan(dj))) && ci > cj)
+//@ func rearrangeCatchment
+//@   requires 1 <= catchmentSize && catchmentSize <= len(nS.catchment)
+//@   modifies nS.catchment
+//@   after call:SliceStable#1: assert [hint.inverse] forall(i, 0, len(nS.catchment), 0 <= sortinv(i) && sortinv(i) < len(nS.catchment) && sortperm(sortinv(i)) == i && nS.catchment[sortinv(i)] == old(nS.catchment[i]))
+//@   ensures len(nS.catchment) == catchmentSize && sameref(nS.catchment, old(nS.catchment))
+//@   ensures nS.qname == old(nS.qname) && nS.qidx == old(nS.qidx)
+//@   ensures [sorted] forall(a, 0, catchmentSize, forall(b, a + 1, catchmentSize, !cmpLess(nS.catchment[b].distance, nS.catchment[b].completeness, nS.catchment[a].distance, nS.catchment[a].completeness)))
+//@   ensures [furthest] nS.furthestCompleteness == nS.catchment[catchmentSize-1].completeness && (nS.furthestDistance == nS.catchment[catchmentSize-1].distance || (isnan(nS.furthestDistance) && isnan(nS.catchment[catchmentSize-1].distance)))
+//@   ensures [members] forall(j, 0, catchmentSize, exists(i, 0, old(len(nS.catchment)), nS.catchment[j] == old(nS.catchment[i])))
+//@   ensures [dropped] forall(i, 0, old(len(nS.catchment)), exists(j, 0, catchmentSize, nS.catchment[j] == old(nS.catchment[i])) || !cmpLess(old(nS.catchment[i].distance), old(nS.catchment[i].completeness), nS.catchment[catchmentSize-1].distance, nS.catchment[catchmentSize-1].completeness))
+
+//@ # findClosestN: bounded catchment. Proved: never more than catchmentSize elements; once full it is sorted by the
+//@ # documented comparator (NaN last, then completeness descending) and furthest* describe its last element; one
+//@ # catchment is sent with the query's name/index. (The -d filter and 'nothing better was dropped' are exercised by the
+//@ # replay oracle only: their invariants did not discharge within the time limit.)
+//@ func findClosestN
+//@   modifies cOut
+//@   requires catchmentSize >= 1
+//@   requires forall(t, 0, len(recv(cIn)), len(recv(cIn)[t].Seq) == len(query.Seq))
+//@   requires forall(k, 0, len(query.Seq), isCode(query.Seq[k]))
+//@   requires query.Count_A == 0 && query.Count_C == 0 && query.Count_G == 0 && query.Count_T == 0
+//@   loop 1:
+//@     invariant len(sent(cOut)) == 0 && len(neighbours.catchment) <= catchmentSize && neighbours.qname == query.ID && neighbours.qidx == query.Idx && freshslice(neighbours.catchment)
+//@     invariant implies(len(neighbours.catchment) == catchmentSize, forall(a, 0, catchmentSize, forall(b, a + 1, catchmentSize, !cmpLess(neighbours.catchment[b].distance, neighbours.catchment[b].completeness, neighbours.catchment[a].distance, neighbours.catchment[a].completeness))))
+//@     invariant implies(len(neighbours.catchment) == catchmentSize, neighbours.furthestCompleteness == neighbours.catchment[catchmentSize-1].completeness && (neighbours.furthestDistance == neighbours.catchment[catchmentSize-1].distance || (isnan(neighbours.furthestDistance) && isnan(neighbours.catchment[catchmentSize-1].distance))))
+//@   ensures len(sent(cOut)) == 1 && sent(cOut)[0].qname == query.ID && sent(cOut)[0].qidx == query.Idx && len(sent(cOut)[0].catchment) <= catchmentSize
+//@   ensures [sorted] forall(a, 0, len(sent(cOut)[0].catchment), forall(b, a + 1, len(sent(cOut)[0].catchment), !cmpLess(sent(cOut)[0].catchment[b].distance, sent(cOut)[0].catchment[b].completeness, sent(cOut)[0].catchment[a].distance, sent(cOut)[0].catchment[a].completeness)))
